@@ -164,12 +164,17 @@ new_iterator!(
     /// An iterator of the IDs of the siblings before a given node.
     PrecedingSiblings,
     new = |arena, node| {
-        let first = arena
-            .get(node)
-            .unwrap()
-            .parent
-            .and_then(|parent_id| arena.get(parent_id))
-            .and_then(|parent| parent.first_child);
+        let first = match arena.get(node).unwrap().parent {
+            Some(parent_id) => arena.get(parent_id).and_then(|parent| parent.first_child),
+            None => {
+                // Top-level node: walk to the first node of the sibling chain.
+                let mut first = node;
+                while let Some(previous) = arena[first].previous_sibling {
+                    first = previous;
+                }
+                Some(first)
+            }
+        };
 
         DoubleEndedIter::new(arena, node, first)
     },
@@ -181,12 +186,17 @@ new_iterator!(
     /// An iterator of the IDs of the siblings after a given node.
     FollowingSiblings,
     new = |arena, node| {
-        let last = arena
-            .get(node)
-            .unwrap()
-            .parent
-            .and_then(|parent_id| arena.get(parent_id))
-            .and_then(|parent| parent.last_child);
+        let last = match arena.get(node).unwrap().parent {
+            Some(parent_id) => arena.get(parent_id).and_then(|parent| parent.last_child),
+            None => {
+                // Top-level node: walk to the last node of the sibling chain.
+                let mut last = node;
+                while let Some(next) = arena[last].next_sibling {
+                    last = next;
+                }
+                Some(last)
+            }
+        };
 
         DoubleEndedIter::new(arena, node, last)
     },
